@@ -320,8 +320,9 @@ def c10(ctx, rep):
         rep.ob("C10.ignorecase", f_rx.name, fl == int(re.IGNORECASE), "flags fold to %r; expected exactly re.IGNORECASE (full Unicode case-insensitive matching)" % (fl,), w, key="C10.ignorecase|_generate_sensitive_word_regex")
         arg = r[2][0]
         tmpl = joined = None
-        if M.is_call(arg) and arg[1][0] == "attr" and arg[1][2] == "format" and arg[1][1][0] == "const" and len(arg[2]) == 1:
-            tmpl, joined = arg[1][1][1], arg[2][0]
+        af = M.as_format(arg)
+        if af is not None and len(af[1]) == 1:
+            tmpl, joined = af[0], af[1][0]
         rep.ob("C10.pattern-template", f_rx.name, tmpl == "({})", "template %r; expected '({})' (one group holding the alternation, no anchors)" % (tmpl,), w, key="C10.pattern-template|_generate_sensitive_word_regex")
         elems = None
         if joined is not None and M.is_call(joined) and joined[1] == ("attr", ("const", "|"), "join") and len(joined[2]) == 1:
@@ -431,7 +432,7 @@ def c10(ctx, rep):
             n = None
         rep.ob("C10.pseudonym-length", "_ANON_SENSITIVE_WORD_LEN", n == 6, "pseudonym length folds to %r; expected 6" % (n,), W(f_g))
         digest = ("call", ("attr", ("call", ("global", mod, "md5"), (("call", ("attr", ("binop", "+", ("attr", SELF, "salt"), wp), "encode"), (), ()),), ()), "hexdigest"), (), ())
-        fresh = ("sub", digest, ("slice", None, ("global", mod, "_ANON_SENSITIVE_WORD_LEN"), None))
+        fresh = ("sub", digest, ("slice", None, ("const", n) if isinstance(n, int) else ("global", mod, "_ANON_SENSITIVE_WORD_LEN"), None))
         memo_get = ("call", ("attr", ("attr", SELF, "sens_word_replacements"), "get"), (wp,), ())
         for path in A.paths(f_g).paths:
             r = path.returned()
